@@ -29,6 +29,10 @@ type Node struct {
 	Args    []interp.Value // non-receiver arguments
 	Result  interp.PtrV
 	OK      bool
+	// SpecRejected: the implementation accepted a call the specification rejects (reported as A4.pre); the
+	// result is still kept so that its backward rules can be run ("an accepted forward call never makes
+	// back-propagation fail")
+	SpecRejected bool
 }
 
 // Finding is a disagreement found on one abstract path.
@@ -50,10 +54,12 @@ type OpEngine struct {
 	M *interp.Machine
 	W *spec.World
 
-	nodes    []*Node
-	thresholds *[]int
-	bypass   *ssa.Function
-	Findings []Finding
+	nodes           []*Node
+	thresholds      *[]int
+	PiecewiseProofs int // comparisons decided by region-wise equality of indicator expressions
+	LoopCuts        int // paths abandoned by bounded loop unrolling
+	bypass          *ssa.Function
+	Findings        []Finding
 	// statistics
 	Paths       int
 	ClosureRuns int
@@ -177,6 +183,14 @@ func (e *OpEngine) dataLayer(fn *ssa.Function, args []interp.Value) bool {
 		return false
 	}
 	sig := fn.Signature
+	if sig.Recv() != nil && len(args) > 0 && sig.Params().Len() <= 1 {
+		// accessors on a tensor whose data is fully known (single-element tensors): interpreted, not summarised
+		if rp, ok := e.W.AsTensor(args[0]); ok {
+			if _, known := interp.Load(rp.C.Fields[e.A.FData]).(interp.IfaceV); known && sig.Results().Len() == 1 && isAnyish(sig.Results().At(0).Type()) {
+				return false
+			}
+		}
+	}
 	for i := 0; i < sig.Params().Len(); i++ {
 		if isAnyish(sig.Params().At(i).Type()) {
 			// enter when the data is structured (TensorOf analysis), skip when it is opaque tensor data
@@ -264,6 +278,24 @@ func (e *OpEngine) static(m *interp.Machine, fn *ssa.Function, args []interp.Val
 	}
 	if e.dataLayer(fn, args) {
 		e.Funcs[core.FuncKey(fn)+" (data layer: summarised)"] = true
+		// a summarised filler leaves its receiver with (opaque) data, not with the nil it started from
+		if fn.Signature.Recv() != nil && len(args) > 0 {
+			if rp, ok := e.W.AsTensor(args[0]); ok {
+				if interp.IsNil(interp.Load(rp.C.Fields[e.A.FData])) {
+					interp.Store(rp.C.Fields[e.A.FData], interp.OpaqueV{Why: "element data written by " + fn.Name()})
+				}
+			}
+		}
+		// … and the `any` cells it is handed by address hold data afterwards
+		for _, a := range args {
+			if pv, ok := a.(interp.PtrV); ok && pv.C != nil && pv.C.Fields == nil && pv.C.Elems == nil {
+				if cur := interp.Load(pv.C); cur == nil || interp.IsNil(cur) {
+					if pv.C.T != nil && isAnyish(pv.C.T) {
+						interp.Store(pv.C, interp.OpaqueV{Why: "element data written by " + fn.Name()})
+					}
+				}
+			}
+		}
 		return e.dataLayerResult(fn), true
 	}
 	name, hasRecv, ok := e.publicOp(fn)
@@ -319,6 +351,11 @@ func (e *OpEngine) static(m *interp.Machine, fn *ssa.Function, args []interp.Val
 		}
 		e.find("A4.pre", key, "accepts-invalid", e.P.FuncPos(fn),
 			fmt.Sprintf("accepts arguments that violate the documented precondition [%s] (%s)", note, e.describeCall(n)))
+		if ip, ok := e.W.AsTensor(implT); ok {
+			ii := e.W.InfoOf(ip)
+			ii.Name, ii.Elem, ii.Rng, ii.Has = "Y", sym.LeafE("Y", spec.IdentIdx(len(e.W.Dims(ip)))), spec.Rng(-1e3, 1e3), true
+			n.Result, n.OK, n.SpecRejected = ip, true, true
+		}
 	default:
 		ip, ok1 := e.W.AsTensor(implT)
 		sp, ok2 := e.W.AsTensor(specT)
